@@ -42,6 +42,16 @@ pub fn games() -> Vec<(String, Tree)> {
     v.push(("forced".to_string(), node(1, "only1", vec![("go", node(2, "only2", vec![("go", t(3))]))])));
     // game 15: one opponent infoset shared by all tasks of a pass (lock contention)
     v.push(("contended8".to_string(), zoo::contended(8)));
+    // game 16: one chance infoset met TWICE on one path (accepted by from_root: same probabilities; the sampled methods
+    // reuse the draw) with decisions in between and below
+    let coin = |a: Tree, b: Tree| Tree::C { ci: "c".into(), kids: vec![tree::CKid { w: Num::I(1), t: a }, tree::CKid { w: Num::I(1), t: b }] };
+    v.push((
+        "nested-chance".to_string(),
+        coin(
+            node(1, "a", vec![("x", coin(node(2, "q", vec![("l", t(2)), ("r", t(-1))]), t(-1))), ("y", t(0))]),
+            node(2, "q2", vec![("l", coin(t(1), t(-3))), ("r", t(1))]),
+        ),
+    ));
     v
 }
 
